@@ -178,6 +178,14 @@ def make_case(i, rng, tier):
         spec = TS.gen_spec(rng, depth, allow_lax=rng.random() < 0.15, dc=lambda rr, d: TS.gen_dc(rr, max(0, min(d, 1))))
         if rng.random() < 0.25:
             spec = TS.gen_dc(rng, 1)
+        elif rng.random() < 0.1:
+            # a transforming (lax) constraint on a bare container: the input already has the target type, so whatever the
+            # constraint does happens to an object the caller still holds (possibly nested inside the caller's data)
+            o = rng.choice(["list", "list", "set", "tuple", "deque"])
+            c = rng.choice(["max_length", "max_length", "length"] + (["unique_items"] if o in ("list", "tuple", "deque") else []))
+            spec = ("con", o, ((c, True if c == "unique_items" else rng.choice([1, 2, 3])),), (c,), ())
+            if rng.random() < 0.5:
+                spec = rng.choice([("gen", "list", (spec,)), ("gen", "dict", (("leaf", "str"), spec)), ("opt", spec)])
         opts = dict(rng.choice([{}, {}, {"collect_errors": True}, {"invalid_items": "exclude"}, {"invalid_items": "preserve"},
                                 {"invalid_keys": "exclude", "invalid_values": "preserve"}, {"no_data_loss": True}, {"addition": True},
                                 {"invalid_values": "exclude", "collect_errors": True}]))
